@@ -452,6 +452,8 @@ def main(argv):
     # ------------------------------------------------------------------ evidence
     trusted = sorted(set(t for r in results for t in r['trusted']))
     level = P['level']
+    # obligations recorded as known findings are reported separately, not counted as proof obligations
+    obligations = [o for o in obligations if not (o in known_obl and o in failed)]
     n_obl = len(set(obligations))
     n_dis = len(set(o for o in discharged if o not in failed))
     cov = {
